@@ -23,6 +23,7 @@ ASSUMPTIONS = [
 
 
 def check(stats, m, env, var, as_object=False, info=None, sub="domain"):
+    m = safe(m)
     stats.case()
     info = info or {}
     r, ctx = DV.value_context(m, env)
